@@ -176,7 +176,8 @@ def run_check(pid, tier):
                 bins[key] = b
         # 1. replay known findings (prints KNOWN-FINDING lines)
         env = goenv()
-        env.update(VERIF_STATS_DIR=statsdir, VERIF_REPLAY_DIR=replaydir, VERIF_TMP=work, VERIF_TIER=tier)
+        # VERIF_JOURNAL: every worker journals the case in flight, a worker death becomes a violation with that replay
+        env.update(VERIF_STATS_DIR=statsdir, VERIF_REPLAY_DIR=replaydir, VERIF_TMP=work, VERIF_TIER=tier, VERIF_JOURNAL="1")
         p = subprocess.run([bins[sorted(bins)[0]], "-test.run", "^TestKnown$", "-test.timeout", "300s"],
                            cwd=os.path.join(HARNESS, cfg["pkg"]), env=env, stdout=subprocess.PIPE, stderr=subprocess.STDOUT, text=True)
         for line in p.stdout.splitlines():
@@ -261,8 +262,6 @@ def run_check(pid, tier):
 def crash_violation(pid, out, replaydir, shard, run, statsdir):
     """A panic in a goroutine spawned by the code under test kills the worker. With VERIF_JOURNAL the
     harness journals the case in flight; that journal becomes the replay file of the violation."""
-    if not run["env"].get("VERIF_JOURNAL"):
-        return False
     if "panic: test timed out" in out or not re.search(r"^(panic: |fatal error: |WARNING: DATA RACE)", out, re.M):
         return False
     j = os.path.join(replaydir, "%s-inflight-%d.json" % (pid, shard))
